@@ -153,6 +153,7 @@ Expected(c) == ExpectedI(Items(c))
 
 (* -------------------------------------------- conformance of a result --- *)
 (* obs = [err : "" or exception class name, spill, attrs : Seq([n,v,bare])] *)
+(* (plus errkind and out, used only by the named deviations / the drift check) *)
 (* read by an HTML parser from "<div " \o output \o ">".                    *)
 Matches(it, a) == \/ it.kind = "zone"
                   \/ it.kind = "bare" /\ a.bare
@@ -229,19 +230,21 @@ DevRepeatShift(c) ==
     /\ \E p0 \in 1..(p - 1) : c.kws[p0].n = c.kws[p].n
     /\ \A q0 \in 1..(q - 1) : c.kws[q0].n # c.kws[q].n
     /\ c.kws[r].n = c.kws[q].n
-\* the implemented merge: res = surviving keyword list, first[n] = index of n's first occurrence in kws,
-\* cur[n] = value merged so far
-RECURSIVE MR(_, _, _, _, _)
-MR(kws, i, res, first, cur) ==
+\* the merge of repeated keywords: res = surviving keyword list, slot[n] = where n is believed to sit in
+\* res (buggy: its index in kws; otherwise its real position), cur[n] = value merged so far
+RECURSIVE MR(_, _, _, _, _, _)
+MR(kws, i, res, slot, cur, buggy) ==
   IF i > Len(kws) THEN [err |-> "", res |-> res]
   ELSE LET n == kws[i].n IN
-       IF n \notin DOMAIN first
-       THEN MR(kws, i + 1, Append(res, kws[i]), first @@ (n :> i), cur @@ (n :> kws[i].v))
+       IF n \notin DOMAIN slot
+       THEN MR(kws, i + 1, Append(res, kws[i]), slot @@ (n :> IF buggy THEN i ELSE Len(res) + 1),
+               cur @@ (n :> kws[i].v), buggy)
        ELSE LET merged == [t |-> "str", s |-> PyStr(cur[n]) \o " " \o PyStr(kws[i].v)] IN
-            IF first[n] > Len(res) THEN [err |-> "IndexError", res |-> res]
-            ELSE MR(kws, i + 1, [res EXCEPT ![first[n]] = [n |-> n, v |-> merged]], first, [cur EXCEPT ![n] = merged])
-Merged(c) == MR(c.kws, 1, <<>>, <<>>, <<>>)
+            IF slot[n] > Len(res) THEN [err |-> "IndexError", res |-> res]
+            ELSE MR(kws, i + 1, [res EXCEPT ![slot[n]] = [n |-> n, v |-> merged]], slot,
+                    [cur EXCEPT ![n] = merged], buggy)
 DupPlain(res) == \E i, j \in 1..Len(res) : i < j /\ res[i].n = res[j].n /\ PlainKwName(res[i].n)
+DupAny(res) == \E i, j \in 1..Len(res) : i < j /\ res[i].n = res[j].n
 LastOnly(res) == LET keep == {i \in 1..Len(res) : \A j \in (i + 1)..Len(res) : res[j].n # res[i].n}
                      RECURSIVE Pick(_)
                      Pick(i) == IF i > Len(res) THEN <<>> ELSE (IF i \in keep THEN <<res[i]>> ELSE <<>>) \o Pick(i + 1)
@@ -257,31 +260,36 @@ DevEmitText(items) ==
 KeyShift == "repeated-keyword-after-earlier-repeat:merged-into-wrong-slot"
 KeyNum   == "append-number:TypeError"
 KeyName  == "attr-name-unrepresentable:written-unchecked"
-DevRec(key, mode, err, attrs, items, errok) ==
-  [key |-> key, mode |-> mode, err |-> err, attrs |-> attrs, items |-> items, errok |-> errok]
-NoDev == DevRec("", "", "", <<>>, <<>>, {})
-DupAny(res) == \E i, j \in 1..Len(res) : i < j /\ res[i].n = res[j].n
-DevAttrs(c) ==
-  LET m == Merged(c)
-      shifted == DevRepeatShift(c)
-      k(other) == IF shifted THEN KeyShift ELSE other IN
-  IF m.err # "" THEN DevRec(KeyShift, "err", m.err, <<>>, <<>>, {})
-  ELSE IF DupPlain(m.res) THEN DevRec(KeyShift, "err", "TypeError", <<>>, <<>>, {})
+\* err: "Class/what" - the exception class and which failure it is (obs.errkind, read off the message by
+\* the harness: "index" list index out of range, "multiple-values" repeated argument, "concat" str + number)
+Prediction(mode, err, attrs, items, errok) ==
+  [mode |-> mode, err |-> err, attrs |-> attrs, items |-> items, errok |-> errok]
+(* What the code does on case c if exactly the deviations in S (1, 2, 3 above) are present and   *)
+(* everything else follows the specification - so the findings stay recognisable when only some *)
+(* of them have been repaired.                                                                   *)
+Pred(c, S) ==
+  LET m == MR(c.kws, 1, <<>>, <<>>, <<>>, 1 \in S) IN
+  IF m.err # "" THEN Prediction("err", "IndexError/index", <<>>, <<>>, {})
+  ELSE IF DupPlain(m.res) THEN Prediction("err", "TypeError/multiple-values", <<>>, <<>>, {})
   ELSE LET c2 == [c EXCEPT !.kws = LastOnly(m.res)]
-           its2 == Items(c2)
+           its == IF 1 \in S /\ DevRepeatShift(c) THEN Items(c2) ELSE Items(c)
            \* a name that is not a Python identifier occurring twice: today the later one wins silently;
            \* rejecting it like an identifier (TypeError) is predicted as well
            dupErr == IF DupAny(m.res) THEN {"TypeError"} ELSE {} IN
-       IF NumAppendRaises(c2) THEN DevRec(k(KeyNum), "err", "TypeError", <<>>, <<>>, {})
-       ELSE IF /\ \E i \in 1..Len(its2) : its2[i].cls = "unrep" /\ its2[i].kind \in {"bare", "val"}
-               /\ \A i \in 1..Len(its2) : Cardinality(its2[i].vals) <= 1 /\ its2[i].kind # "zone"
-       THEN DevRec(k(KeyName), "parse", "", ParseAttrs(DevEmitText(its2)).attrs, <<>>, dupErr)
-       ELSE IF shifted THEN DevRec(KeyShift, "items", "", <<>>, its2, ErrOk(its2) \cup dupErr)
-       ELSE NoDev
-DevExplains(d, obs) ==
-  /\ d.key # ""
-  /\ CASE d.mode = "err"   -> obs.err = d.err
-       [] d.mode = "parse" -> IF obs.err # "" THEN obs.err \in d.errok
-                              ELSE ~obs.spill /\ obs.attrs = d.attrs
-       [] d.mode = "items" -> Conform([items |-> d.items, err |-> d.errok], obs)
+       IF 2 \in S /\ NumAppendRaises(c2) THEN Prediction("err", "TypeError/concat", <<>>, <<>>, {})
+       ELSE IF /\ 3 \in S
+               /\ \E i \in 1..Len(its) : its[i].cls = "unrep" /\ its[i].kind \in {"bare", "val"}
+               /\ \A i \in 1..Len(its) : Cardinality(its[i].vals) <= 1 /\ its[i].kind # "zone"
+       THEN Prediction("parse", "", ParseAttrs(DevEmitText(its)).attrs, <<>>, dupErr)
+       ELSE Prediction("items", "", <<>>, its, ErrOk(its) \cup dupErr)
+Predicted(p, obs) ==
+  CASE p.mode = "err"   -> obs.err \o "/" \o obs.errkind = p.err
+    [] p.mode = "parse" -> IF obs.err # "" THEN obs.err \in p.errok ELSE ~obs.spill /\ obs.attrs = p.attrs
+    [] p.mode = "items" -> Conform([items |-> p.items, err |-> p.errok], obs)
+DevSets == << {2}, {3}, {1}, {1, 2}, {1, 3}, {2, 3}, {1, 2, 3} >>
+KeyOf(S) == IF 1 \in S THEN KeyShift ELSE IF 2 \in S THEN KeyNum ELSE KeyName
+\* "" if no combination of the named deviations predicts this (non-conforming) observation
+DevKey(c, obs) ==
+  LET ok == {i \in 1..Len(DevSets) : Predicted(Pred(c, DevSets[i]), obs)} IN
+  IF ok = {} THEN "" ELSE KeyOf(DevSets[CHOOSE i \in ok : \A j \in ok : i <= j])
 =============================================================================
